@@ -15,6 +15,7 @@
 From NL.Model Require Import Compiler Pipeline.
 From NL.Spec Require Import Printer RenderSpec.
 From NL.Proofs Require Import AstInduction.
+From NL.Proofs Require LexerProofs ParserTermination PrinterProofs.
 Open Scope Z_scope.
 
 (** * 0. Outcomes *)
@@ -317,10 +318,10 @@ Qed.
 Lemma good_app : forall d st st' l, app_of st st' l -> d <= zlength l -> 1 <= zlength l ->
   code_inv st -> good d st (Ok st').
 Proof.
-  intros d st st' l H L1 L2 I. cbn [good]. pose proof (app_of_len _ _ _ H) as E.
+  intros d st st' l H L1 L2 Hinv. cbn [good]. pose proof (app_of_len _ _ _ H) as E.
   split; [|split; [eapply pstep_app; exact H|lia]].
   unfold code_inv. destruct H as [H1 H2]. rewrite H2.
-  eapply binv_grow; [exact I|lia|]. intros i Hi. eapply app_of_old; [split; eassumption|exact Hi].
+  eapply binv_grow; [exact Hinv|lia|]. intros i Hi. eapply app_of_old; [split; eassumption|exact Hi].
 Qed.
 
 Lemma good_emit_opcode : forall d op st, d <= 1 -> code_inv st -> good d st (Ok (emit_opcode op st)).
@@ -356,12 +357,12 @@ Qed.
 
 Lemma good_emit_const : forall d k st, d <= 3 -> code_inv st -> good d st (emit_const k st).
 Proof.
-  intros d k st L I. unfold emit_const.
+  intros d k st L Hinv. unfold emit_const.
   pose proof (add_constant_same k st) as (E1 & E2 & E3). pose proof (add_constant_no_panic k st) as NP.
   destruct (add_constant k st) as [st1 r]. cbn [fst snd] in *.
-  destruct r as [idx| | |]; cbn [bind good no_panic] in *; auto.
+  destruct r as [idx| | |]; cbn [bind no_panic] in *; try exact I; try contradiction.
   apply (good_from_same d st st1); [exact E1|exact E3|].
-  apply good_emit3; [exact L|]. eapply code_inv_same; eassumption.
+  apply good_emit3; [exact L|]. exact (code_inv_same st st1 Hinv E1 E2 E3).
 Qed.
 
 (** * 7. Patching a jump *)
@@ -403,7 +404,7 @@ Qed.
 Lemma patched_code_inv : forall pos st st', patched pos st st' -> code_inv st ->
   (forall p, brk (c_loops st) p -> p <> pos + 1 /\ p <> pos + 2) -> code_inv st'.
 Proof.
-  intros pos st st' Hp I H. unfold code_inv. rewrite (pa_loops _ _ _ Hp).
+  intros pos st st' Hp Hinv H. unfold code_inv. rewrite (pa_loops _ _ _ Hp).
   eapply patched_binv; eassumption.
 Qed.
 
@@ -422,17 +423,17 @@ Lemma fold_patch_good : forall P bs s, binv P s -> (forall q, In q bs -> P q) ->
   | _ => False
   end.
 Proof.
-  intros P bs. induction bs as [|q bs IH]; intros s I H.
+  intros P bs. induction bs as [|q bs IH]; intros s Hinv H.
   - cbn [fold_left]. auto.
   - cbn [fold_left]. unfold patch_step at 2. cbn [bind]. unfold operand.
-    destruct (code_len s <? 2 ^ 16); cbn [bind]; [|rewrite fold_patch_err; exact I0].
+    destruct (code_len s <? 2 ^ 16); cbn [bind]; [|rewrite fold_patch_err; exact I].
     assert (Pq : P q) by (apply H; left; reflexivity).
-    destruct (bi_at _ _ I q Pq) as (Q0 & Q1 & Q2).
+    destruct (bi_at _ _ Hinv q Pq) as (Q0 & Q1 & Q2).
     destruct (patch_spec q (code_len s) s _ Q0 Q2 jump_byte_jump) as (s1 & E & Hp).
     rewrite E.
     assert (I1 : binv P s1).
-    { eapply patched_binv; [exact Hp|exact I|]. intros p Pp.
-      destruct (bi_sep _ _ I p q Pp Pq) as [->|[L|L]]; lia. }
+    { eapply patched_binv; [exact Hp|exact Hinv|]. intros p Pp.
+      destruct (bi_sep _ _ Hinv p q Pp Pq) as [->|[L|L]]; lia. }
     specialize (IH s1 I1 (fun r Hr => H r (or_intror Hr))).
     destruct (fold_left patch_step bs (Ok s1)) as [s'| | |]; auto.
     destruct IH as (A & B & C & D). split; [exact A|]. split; [rewrite B; apply (pa_len _ _ _ Hp)|].
@@ -468,7 +469,7 @@ Lemma remove_last_binv : forall P st, binv P st -> c_last st = Some OPop -> 1 <=
 Proof.
   intros P st [A B C] L H. split.
   - intros p Hp. destruct (A p Hp) as (A1 & A2 & A3). pose proof (C L p Hp) as C1.
-    rewrite remove_last_len, remove_last_byte by lia. auto.
+    rewrite remove_last_len, remove_last_byte by lia. split; [exact A1|split; [lia|exact A3]].
   - exact B.
   - cbn [remove_last_instruction c_last]. discriminate.
 Qed.
@@ -478,11 +479,1146 @@ Lemma good_remove_last : forall st st1, code_inv st1 -> pstep (code_len st) st s
   code_len st + 1 <= code_len st1 -> c_last st1 = Some OPop ->
   good 0 st (Ok (remove_last_instruction st1)).
 Proof.
-  intros st st1 I [S1 S2 S3] L P. pose proof (code_len_nonneg st) as N. cbn [good].
+  intros st st1 Hinv [S1 S2 S3] L P. pose proof (code_len_nonneg st) as N. cbn [good].
   split; [|split; [split|]].
-  - unfold code_inv. cbn [remove_last_instruction c_loops]. apply remove_last_binv; [exact I|exact P|lia].
+  - unfold code_inv. cbn [remove_last_instruction c_loops]. apply remove_last_binv; [exact Hinv|exact P|lia].
   - rewrite remove_last_len by lia. lia.
   - intros i Hi. rewrite remove_last_byte by lia. apply S2. exact Hi.
   - exact S3.
   - rewrite remove_last_len by lia. lia.
 Qed.
+
+(** * 9. Unfolding equations of the compiler (all by computation) *)
+
+Fixpoint compile_exprs (l : list expr) (st : cstate) : outcome cstate :=
+  match l with
+  | [] => Ok st
+  | x :: r => do st' <- compile_expression x st; compile_exprs r st'
+  end.
+
+(* compile_block_statement and compile_block_value: the local definitions of the model *)
+Definition block_statement (b : list stmt) (st : cstate) : outcome cstate :=
+  if is_nil b then Ok (emit_opcode ONull st)
+  else do st1 <- compile_statements b (set_symbols st (enter_scope (c_symbols st)));
+       Ok (set_symbols st1 (leave_scope (c_symbols st1))).
+
+Definition block_value (b : list stmt) (st : cstate) : outcome cstate :=
+  do st1 <- block_statement b st;
+  if is_nil b then Ok st1
+  else if last_instruction_is OPop st1 then Ok (remove_last_instruction st1)
+  else Ok (emit_opcode ONull st1).
+
+Definition jump_ph (op : opcode) (st : cstate) : cstate := emit_u16 JUMP_PLACEHOLDER (emit_opcode op st).
+
+Definition generic_infix (l : expr) (op : operator) (r : expr) (st0 : cstate) : outcome cstate :=
+  do st1 <- compile_expression l st0;
+  do st2 <- compile_expression r st1;
+  match assoc operator_eqb op compile_operator_table with
+  | Some opc => Ok (emit_opcode opc st2)
+  | None => Fault FUnwrap
+  end.
+
+Lemma ce_infix : forall l op r st,
+  compile_expression (EInfix l op r) st =
+  match fused_candidate l r op with
+  | Some (name, v, op') =>
+      let '(st1, done) := compile_const_var_infix name v op' st in
+      if done : bool then Ok st1 else generic_infix l op r st1
+  | None => generic_infix l op r st
+  end.
+Proof. reflexivity. Qed.
+
+Lemma ce_prefix : forall op r st,
+  compile_expression (EPrefix op r) st =
+  do st1 <- compile_expression r st;
+  match op with
+  | OpNegate | OpSubtract => Ok (emit_opcode ONegate st1)
+  | OpNot => Ok (emit_opcode ONot st1)
+  | _ => Err ETypeError
+  end.
+Proof. reflexivity. Qed.
+
+Lemma ce_if : forall c t alt st,
+  compile_expression (EIf c t alt) st =
+  do st1 <- compile_expression c st;
+  do st3 <- block_value t (jump_ph OJumpIfFalse st1);
+  do target <- operand 16 (code_len (jump_ph OJump st3));
+  do st5 <- change_jump_operand_at (code_len st1) target (jump_ph OJump st3);
+  do st6 <- match alt with
+            | Some b => block_value b st5
+            | None => Ok (emit_opcode ONull st5)
+            end;
+  do target2 <- operand 16 (code_len st6);
+  change_jump_operand_at (code_len st3) target2 st6.
+Proof. reflexivity. Qed.
+
+Definition while_enter (st : cstate) : cstate :=
+  let st1 := emit_opcode ONull st in
+  set_loops st1 (c_loops st1 ++ [mkLoop (code_len st1) []]).
+
+Definition while_exit (st8 : cstate) : outcome cstate :=
+  match rev (c_loops st8) with
+  | [] => Fault FUnwrap
+  | ctx :: rest => fold_left patch_step (l_breaks ctx) (Ok (set_loops st8 (rev rest)))
+  end.
+
+Lemma ce_while : forall c body st,
+  compile_expression (EWhile c body) st =
+  do st3 <- compile_expression c (while_enter st);
+  do st5 <- block_value body (emit_opcode OPop (jump_ph OJumpIfFalse st3));
+  do back <- operand 16 (code_len (emit_opcode ONull st));
+  do target <- operand 16 (code_len (emit_u16 back (emit_opcode OJump st5)));
+  do st8 <- change_jump_operand_at (code_len st3) target (emit_u16 back (emit_opcode OJump st5));
+  while_exit st8.
+Proof. reflexivity. Qed.
+
+Definition fun_enter (name : text) (st : cstate) : cstate * option symbol :=
+  if is_nil name then (st, None)
+  else let '(t, s) := define (c_symbols st) name in (set_symbols st t, Some s).
+
+Definition fun_finish (st5 : cstate) : cstate :=
+  if last_instruction_is OPop st5 then emit_opcode OReturnValue (remove_last_instruction st5)
+  else if last_instruction_is OReturnValue st5 then st5
+  else emit_opcode OReturn st5.
+
+Definition fun_tail (pos_start : Z) (sym : option symbol) (st7 : cstate) : outcome cstate :=
+  let '(t8, num_locals) := leave_context (c_symbols st7) in
+  let st8 := set_symbols st7 t8 in
+  do ip <- operand 32 pos_start;
+  do nl <- operand 16 (Z.of_nat num_locals);
+  let '(st9, r) := add_constant (KFun ip nl) st8 in
+  do idx <- r;
+  let st10 := emit_u16 idx (emit_opcode OConst st9) in
+  match sym with
+  | Some s =>
+      do st11 <- emit_sym (scoped s OSetGlobal OSetLocal) s st10;
+      Ok (emit_u16 idx (emit_opcode OConst st11))
+  | None => Ok st10
+  end.
+
+Lemma ce_function : forall name params body st,
+  compile_expression (EFunction name params body) st =
+  let '(st1, sym) := fun_enter name st in
+  let st2 := jump_ph OJump st1 in
+  let st3 := set_symbols st2 (fold_left (fun t p => fst (define t p)) params (new_context (c_symbols st2))) in
+  do st4 <- block_statement body (set_loops st3 []);
+  let st6 := fun_finish (set_loops st4 (c_loops st3)) in
+  do target <- operand 16 (code_len st6);
+  do st7 <- change_jump_operand_at (code_len st1) target st6;
+  fun_tail (code_len st3) sym st7.
+Proof. reflexivity. Qed.
+
+Lemma ce_call : forall f args st,
+  compile_expression (ECall f args) st =
+  do st1 <- compile_exprs args st;
+  match (match f with EIdent name => assoc_text name builtin_names | _ => None end) with
+  | Some b =>
+      do n <- operand 8 (zlength args);
+      Ok (emit_u8 n (emit_u8 (byte_of_builtin b) (emit_opcode OCallBuiltin st1)))
+  | None =>
+      do st2 <- compile_expression f st1;
+      do n <- operand 8 (zlength args);
+      Ok (emit_u8 n (emit_opcode OCall st2))
+  end.
+Proof. reflexivity. Qed.
+
+Lemma ce_array : forall vs st,
+  compile_expression (EArray vs) st =
+  do st1 <- compile_exprs vs st;
+  do n <- operand 16 (zlength vs);
+  Ok (emit_u16 n (emit_opcode OArray st1)).
+Proof. reflexivity. Qed.
+
+Lemma ce_index : forall l i st,
+  compile_expression (EIndex l i) st =
+  do st1 <- compile_expression l st;
+  do st2 <- compile_expression i st1;
+  Ok (emit_opcode OIndexGet st2).
+Proof. reflexivity. Qed.
+
+Lemma ce_assign_ident : forall x r st,
+  compile_expression (EAssign (EIdent x) r) st =
+  match resolve (c_symbols st) x with
+  | Some s =>
+      do st1 <- compile_expression r st;
+      do st2 <- emit_sym (scoped s OSetGlobal OSetLocal) s st1;
+      emit_sym (scoped s OGetGlobal OGetLocal) s st2
+  | None => Err EReferenceError
+  end.
+Proof. reflexivity. Qed.
+
+Lemma ce_assign_index : forall a i r st,
+  compile_expression (EAssign (EIndex a i) r) st =
+  do st1 <- compile_expression a st;
+  do st2 <- compile_expression i st1;
+  do st3 <- compile_expression r st2;
+  Ok (emit_opcode OIndexSet st3).
+Proof. reflexivity. Qed.
+
+Lemma cs_block : forall b st,
+  compile_statement (SBlock b) st =
+  if is_nil b then Ok (emit_opcode OPop (emit_opcode ONull st))
+  else do st1 <- compile_statements b (set_symbols st (enter_scope (c_symbols st)));
+       Ok (set_symbols st1 (leave_scope (c_symbols st1))).
+Proof. reflexivity. Qed.
+
+Lemma cs_let : forall name v st,
+  compile_statement (SLet name v) st =
+  let '(t, sym) := define (c_symbols st) name in
+  do st1 <- compile_expression v (set_symbols st t);
+  emit_sym (scoped sym OSetGlobal OSetLocal) sym st1.
+Proof. reflexivity. Qed.
+
+Lemma cs_break : forall st,
+  compile_statement SBreak st =
+  let st2 := jump_ph OJump (emit_opcode ONull st) in
+  match rev (c_loops st) with
+  | [] => Err ESyntaxError
+  | ctx :: rest =>
+      Ok (set_loops st2 (rev (mkLoop (l_start ctx) (l_breaks ctx ++ [code_len (emit_opcode ONull st)]) :: rest)))
+  end.
+Proof. reflexivity. Qed.
+
+Lemma cs_continue : forall st,
+  compile_statement SContinue st =
+  match rev (c_loops st) with
+  | [] => Err ESyntaxError
+  | ctx :: _ =>
+      do pos <- operand 16 (l_start ctx);
+      Ok (emit_u16 pos (emit_opcode OJump (emit_opcode ONull st)))
+  end.
+Proof. reflexivity. Qed.
+
+(** * 10. Helper facts about appended code *)
+
+Lemma app_facts : forall st s l, app_of st s l -> 1 <= zlength l -> code_inv st ->
+  code_inv s /\ pstep (code_len st) st s /\ code_len s = code_len st + zlength l /\ c_loops s = c_loops st.
+Proof.
+  intros st s l A L Hinv. destruct (good_app 0 st s l A ltac:(lia) L Hinv) as (X & Y & _).
+  split; [exact X|]. split; [exact Y|]. split; [apply app_of_len; exact A|apply A].
+Qed.
+
+Lemma app_of_same : forall st st1 s l, c_code st1 = c_code st -> c_loops st1 = c_loops st ->
+  app_of st1 s l -> app_of st s l.
+Proof. intros st st1 s l E1 E2 [A B]. split; congruence. Qed.
+
+Lemma pstep_same : forall n st st1, c_code st1 = c_code st -> c_loops st1 = c_loops st -> pstep n st st1.
+Proof.
+  intros n st st1 E1 E2. split.
+  - unfold code_len. rewrite E1. lia.
+  - intros i _. unfold byte_at. rewrite E1. reflexivity.
+  - rewrite E2. apply loops_ext_refl.
+Qed.
+
+Lemma good_same : forall st st1, code_inv st -> c_code st1 = c_code st -> c_last st1 = c_last st ->
+  c_loops st1 = c_loops st -> good 0 st (Ok st1).
+Proof.
+  intros st st1 Hinv E1 E2 E3. cbn [good]. split; [eapply code_inv_same; eassumption|].
+  split; [apply pstep_same; assumption|]. unfold code_len. rewrite E1. lia.
+Qed.
+
+Lemma good_after : forall d st st1 o, pstep (code_len st) st st1 -> good d st1 o -> 0 <= d -> good d st o.
+Proof.
+  intros d st st1 [s2| | |] S G L; cbn [good] in *; auto. destruct G as (A & B & C).
+  split; [exact A|]. split; [eapply pstep_then; eassumption|]. pose proof (sp_len _ _ _ S). lia.
+Qed.
+
+Lemma zlength_cons : forall A (x : A) l, zlength (x :: l) = 1 + zlength l.
+Proof. intros. unfold zlength. cbn [length]. lia. Qed.
+Lemma zlength_nil : forall A, zlength (@nil A) = 0.
+Proof. reflexivity. Qed.
+
+Ltac zl := cbn [app]; rewrite ?zlength_cons, ?zlength_nil; lia.
+
+Lemma jump_ph_facts : forall op st, code_inv st ->
+  code_inv (jump_ph op st) /\ pstep (code_len st) st (jump_ph op st) /\
+  code_len (jump_ph op st) = code_len st + 3 /\ c_loops (jump_ph op st) = c_loops st /\
+  byte_at (jump_ph op st) (code_len st) = Some (byte_of_opcode op).
+Proof.
+  intros op st Hinv. pose proof (app_emit3 op JUMP_PLACEHOLDER st) as A. fold (jump_ph op st) in A.
+  destruct (app_facts _ _ _ A ltac:(zl) Hinv) as (X & Y & Z1 & W).
+  split; [exact X|]. split; [exact Y|]. split; [rewrite Z1; zl|]. split; [exact W|].
+  eapply app_of_head. exact A.
+Qed.
+
+(** * 11. Which trees: every infix operator has an opcode *)
+
+Definition op_has_opcode (o : operator) : bool :=
+  match assoc operator_eqb o compile_operator_table with Some _ => true | None => false end.
+
+Fixpoint ops_ok_e (e : expr) {struct e} : bool :=
+  match e with
+  | EInfix l o r => op_has_opcode o && ops_ok_e l && ops_ok_e r
+  | EPrefix _ r => ops_ok_e r
+  | EIf c t alt =>
+      ops_ok_e c && forallb ops_ok_s t
+      && match alt with Some a => forallb ops_ok_s a | None => true end
+  | EFunction _ _ body => forallb ops_ok_s body
+  | ECall h args => ops_ok_e h && forallb ops_ok_e args
+  | EAssign l r => ops_ok_e l && ops_ok_e r
+  | EArray vs => forallb ops_ok_e vs
+  | EIndex b i => ops_ok_e b && ops_ok_e i
+  | EWhile c b => ops_ok_e c && forallb ops_ok_s b
+  | _ => true
+  end
+with ops_ok_s (s : stmt) {struct s} : bool :=
+  match s with
+  | SLet _ e | SReturn e | SExpr e => ops_ok_e e
+  | SBlock b => forallb ops_ok_s b
+  | SBreak | SContinue => true
+  end.
+
+(* by computation over the generated tables: the 13 infix operators of the parser all have an opcode *)
+Lemma infix_op_has_opcode : forall o, is_infix_op o = true -> op_has_opcode o = true.
+Proof. intros o. destruct o; vm_compute; intros H; try reflexivity; discriminate H. Qed.
+
+Corollary infix_op_in_table : forall o, is_infix_op o = true ->
+  assoc operator_eqb o compile_operator_table <> None.
+Proof.
+  intros o H. apply infix_op_has_opcode in H. unfold op_has_opcode in H.
+  destruct (assoc operator_eqb o compile_operator_table); [discriminate|discriminate H].
+Qed.
+
+(* prefix operators of the parser are the two compile_expression accepts *)
+Lemma prefix_op_cases : forall o, is_prefix_op o = true -> o = OpNot \/ o = OpSubtract.
+Proof. intros o. destruct o; vm_compute; intros H; try discriminate H; auto. Qed.
+
+Lemma forallb_imp : forall A (f g : A -> bool) l,
+  Forall (fun x => f x = true -> g x = true) l -> forallb f l = true -> forallb g l = true.
+Proof.
+  intros A f g l H. induction H as [|x l Hx H IH]; [reflexivity|]. cbn [forallb].
+  intros E. apply andb_true_iff in E. destruct E as [E1 E2]. rewrite (Hx E1), (IH E2). reflexivity.
+Qed.
+
+Lemma wf_ops_ok : forall fok,
+  (forall e, wf_expr fok e = true -> ops_ok_e e = true) /\
+  (forall s, wf_stmt fok s = true -> ops_ok_s s = true).
+Proof.
+  intros fok. apply expr_stmt_ind; cbn [wf_expr wf_stmt ops_ok_e ops_ok_s]; intros;
+    repeat match goal with
+           | H : _ && _ = true |- _ => apply andb_true_iff in H; destruct H
+           end; auto.
+  - rewrite infix_op_has_opcode, H, H0 by assumption. reflexivity.
+  - rewrite H by assumption. rewrite (forallb_imp _ _ _ _ H0) by assumption.
+    destruct alt as [a|]; [|reflexivity]. cbn [OptForall] in H1.
+    rewrite (forallb_imp _ _ _ _ H1) by assumption. reflexivity.
+  - apply (forallb_imp _ _ _ _ H). assumption.
+  - rewrite H by assumption. rewrite (forallb_imp _ _ _ _ H0) by assumption. reflexivity.
+  - rewrite H, H0 by assumption. reflexivity.
+  - apply (forallb_imp _ _ _ _ H). assumption.
+  - rewrite H, H0 by assumption. reflexivity.
+  - rewrite H by assumption. rewrite (forallb_imp _ _ _ _ H0) by assumption. reflexivity.
+  - apply (forallb_imp _ _ _ _ H). assumption.
+Qed.
+
+(** * 12. The constructs with jumps *)
+
+Ltac pchain :=
+  first [ eapply pstep_weaken; [|eassumption]; lia
+        | eapply patched_pstep; [eassumption|lia] ].
+
+Lemma if_good : forall c t alt st,
+  (forall s, code_inv s -> good 1 s (compile_expression c s)) ->
+  (forall s, code_inv s -> good 0 s (block_value t s)) ->
+  (forall s, code_inv s ->
+     good 0 s (match alt with Some b => block_value b s | None => Ok (emit_opcode ONull s) end)) ->
+  code_inv st -> good 1 st (compile_expression (EIf c t alt) st).
+Proof.
+  intros c t alt st Hc Ht Ha Hinv. rewrite ce_if. pose proof (code_len_nonneg st) as N0.
+  pose proof (Hc st Hinv) as G1.
+  destruct (compile_expression c st) as [st1| | |]; cbn [bind]; [|exact I|destruct G1..].
+  destruct G1 as (I1 & S1 & L1).
+  destruct (jump_ph_facts OJumpIfFalse st1 I1) as (I2 & S2 & L2 & Lo2 & B2).
+  set (st2 := jump_ph OJumpIfFalse st1) in *.
+  pose proof (Ht st2 I2) as G3.
+  destruct (block_value t st2) as [st3| | |]; cbn [bind]; [|exact I|destruct G3..].
+  destruct G3 as (I3 & S3 & L3).
+  destruct (jump_ph_facts OJump st3 I3) as (I4 & S4 & L4 & Lo4 & B4).
+  set (st4 := jump_ph OJump st3) in *.
+  apply good_operand. intros tg.
+  assert (B4' : byte_at st4 (code_len st1) = Some (byte_of_opcode OJumpIfFalse)).
+  { rewrite (sp_pre _ _ _ S4) by lia. rewrite (sp_pre _ _ _ S3) by lia. exact B2. }
+  destruct (patch_spec (code_len st1) tg st4 _ (code_len_nonneg st1) B4' jump_byte_jif) as (st5 & E5 & P5).
+  rewrite E5. cbn [bind]. pose proof (pa_len _ _ _ P5) as L5.
+  assert (I5 : code_inv st5).
+  { eapply patched_code_inv; [exact P5|exact I4|]. intros p Hp. rewrite Lo4 in Hp.
+    destruct (loops_ext_brk _ _ _ _ (sp_loops _ _ _ S3) Hp) as [Hp'|Hp'].
+    - rewrite Lo2 in Hp'. destruct (bi_at _ _ I1 p Hp') as (_ & X & _). lia.
+    - lia. }
+  pose proof (Ha st5 I5) as G6.
+  match type of G6 with good _ _ ?o => destruct o as [st6| | |] end; cbn [bind]; [|exact I|destruct G6..].
+  destruct G6 as (I6 & S6 & L6).
+  apply good_operand. intros tg2.
+  assert (B6 : byte_at st6 (code_len st3) = Some (byte_of_opcode OJump)).
+  { rewrite (sp_pre _ _ _ S6) by lia. rewrite (pa_bytes _ _ _ P5) by lia. exact B4. }
+  destruct (patch_spec (code_len st3) tg2 st6 _ (code_len_nonneg st3) B6 jump_byte_jump) as (st7 & E7 & P7).
+  rewrite E7. cbn [good]. pose proof (pa_len _ _ _ P7) as L7.
+  split; [|split].
+  - eapply patched_code_inv; [exact P7|exact I6|]. intros p Hp.
+    destruct (loops_ext_brk _ _ _ _ (sp_loops _ _ _ S6) Hp) as [Hp'|Hp'].
+    + rewrite (pa_loops _ _ _ P5), Lo4 in Hp'. destruct (bi_at _ _ I3 p Hp') as (_ & X & _). lia.
+    + lia.
+  - eapply pstep_trans; [exact S1|].
+    eapply pstep_trans; [pchain|]. eapply pstep_trans; [pchain|]. eapply pstep_trans; [pchain|].
+    eapply pstep_trans; [pchain|]. eapply pstep_trans; [pchain|]. pchain.
+  - lia.
+Qed.
+
+Lemma while_enter_facts : forall st, code_inv st ->
+  code_inv (while_enter st) /\ code_len (while_enter st) = code_len st + 1 /\
+  c_loops (while_enter st) = c_loops st ++ [mkLoop (code_len st + 1) []] /\
+  (forall i, 0 <= i < code_len st -> byte_at (while_enter st) i = byte_at st i).
+Proof.
+  intros st Hinv. pose proof (app_emit_opcode ONull st) as A.
+  destruct (app_facts _ _ _ A ltac:(zl) Hinv) as (X & Y & Z1 & W).
+  assert (Z2 : code_len (emit_opcode ONull st) = code_len st + 1) by (rewrite Z1; zl).
+  split; [|split; [exact Z2|split]].
+  - unfold code_inv.
+    change (c_loops (while_enter st)) with (c_loops st ++ [mkLoop (code_len (emit_opcode ONull st)) []]).
+    apply (binv_same _ (emit_opcode ONull st)); [|reflexivity|reflexivity].
+    eapply binv_weaken; [|exact X]. intros p Hp. apply brk_snoc in Hp. destruct Hp as [Hp|[]]. exact Hp.
+  - change (c_loops (while_enter st)) with (c_loops st ++ [mkLoop (code_len (emit_opcode ONull st)) []]).
+    rewrite Z2. reflexivity.
+  - intros i Hi. exact (app_of_old _ _ _ i A Hi).
+Qed.
+
+Lemma while_good : forall c body st,
+  (forall s, code_inv s -> good 1 s (compile_expression c s)) ->
+  (forall s, code_inv s -> good 0 s (block_value body s)) ->
+  code_inv st -> good 1 st (compile_expression (EWhile c body) st).
+Proof.
+  intros c body st Hc Hb Hinv. rewrite ce_while. pose proof (code_len_nonneg st) as N0.
+  destruct (while_enter_facts st Hinv) as (I2 & L2 & Lo2 & B2).
+  set (st2 := while_enter st) in *.
+  pose proof (Hc st2 I2) as G3.
+  destruct (compile_expression c st2) as [st3| | |]; cbn [bind]; [|exact I|destruct G3..].
+  destruct G3 as (I3 & S3 & L3).
+  assert (A4 : app_of st3 (emit_opcode OPop (jump_ph OJumpIfFalse st3))
+                 ([byte_of_opcode OJumpIfFalse; JUMP_PLACEHOLDER mod 256; (JUMP_PLACEHOLDER / 256) mod 256]
+                  ++ [byte_of_opcode OPop])).
+  { eapply app_of_trans; [apply app_emit3|apply app_emit_opcode]. }
+  cbn [app] in A4.
+  destruct (app_facts _ _ _ A4 ltac:(zl) I3) as (I4 & S4 & L4 & Lo4).
+  pose proof (app_of_head _ _ _ _ A4) as B4.
+  rewrite !zlength_cons, zlength_nil in L4.
+  set (st4 := emit_opcode OPop (jump_ph OJumpIfFalse st3)) in *.
+  pose proof (Hb st4 I4) as G5.
+  destruct (block_value body st4) as [st5| | |]; cbn [bind]; [|exact I|destruct G5..].
+  destruct G5 as (I5 & S5 & L5).
+  apply good_operand. intros back.
+  pose proof (app_emit3 OJump back st5) as A7.
+  destruct (app_facts _ _ _ A7 ltac:(zl) I5) as (I7 & S7 & L7 & Lo7).
+  rewrite !zlength_cons, zlength_nil in L7.
+  set (st7 := emit_u16 back (emit_opcode OJump st5)) in *.
+  apply good_operand. intros tg.
+  assert (B7 : byte_at st7 (code_len st3) = Some (byte_of_opcode OJumpIfFalse)).
+  { rewrite (sp_pre _ _ _ S7) by lia. rewrite (sp_pre _ _ _ S5) by lia. exact B4. }
+  assert (N3 : 0 <= code_len st3) by lia.
+  destruct (patch_spec (code_len st3) tg st7 _ N3 B7 jump_byte_jif) as (st8 & E8 & P8).
+  rewrite E8. cbn [bind]. pose proof (pa_len _ _ _ P8) as L8.
+  assert (I8 : code_inv st8).
+  { eapply patched_code_inv; [exact P8|exact I7|]. intros p Hp. rewrite Lo7 in Hp.
+    destruct (loops_ext_brk _ _ _ _ (sp_loops _ _ _ S5) Hp) as [Hp'|Hp'].
+    - rewrite Lo4 in Hp'. destruct (bi_at _ _ I3 p Hp') as (_ & X & _). lia.
+    - lia. }
+  (* the context pushed on entry is still the innermost one *)
+  assert (LE : loops_ext (code_len st2) (c_loops st2) (c_loops st8)).
+  { rewrite (pa_loops _ _ _ P8), Lo7. eapply loops_ext_trans; [|exact (sp_loops _ _ _ S3)|].
+    2: { rewrite <- Lo4. exact (sp_loops _ _ _ S5). }
+    lia. }
+  rewrite Lo2 in LE. apply loops_ext_snoc_inv in LE. destruct LE as (L' & c' & EL & LE' & CE).
+  unfold while_exit. rewrite EL, rev_app_distr. cbn [rev app]. rewrite rev_involutive.
+  destruct CE as (_ & extra & EB & FE). cbn [l_breaks app] in EB.
+  unfold code_inv in I8. rewrite EL in I8.
+  assert (I9 : binv (brk (L' ++ [c'])) (set_loops st8 L'))
+    by (eapply binv_same; [exact I8|reflexivity|reflexivity]).
+  pose proof (fold_patch_good (brk (L' ++ [c'])) (l_breaks c') _ I9
+                (fun q Hq => proj2 (brk_snoc L' c' q) (or_intror Hq))) as G.
+  destruct (fold_left patch_step (l_breaks c') (Ok (set_loops st8 L'))) as [s'| | |]; [|exact I|destruct G..].
+  destruct G as (Is & Ls & Los & Bs). cbn [set_loops c_loops] in Los.
+  change (code_len (set_loops st8 L')) with (code_len st8) in Ls.
+  cbn [good]. split; [|split; [split|]].
+  - unfold code_inv. rewrite Los. eapply binv_weaken; [|exact Is].
+    intros p Hp. apply brk_snoc. left. exact Hp.
+  - lia.
+  - intros i Hi. rewrite Bs; [|lia|].
+    + change (byte_at (set_loops st8 L') i) with (byte_at st8 i).
+      rewrite (pa_bytes _ _ _ P8) by lia. rewrite (sp_pre _ _ _ S7) by lia.
+      rewrite (sp_pre _ _ _ S5) by lia. rewrite (sp_pre _ _ _ S4) by lia.
+      rewrite (sp_pre _ _ _ S3) by lia. apply B2. lia.
+    + intros q Hq. rewrite EB in Hq. rewrite Forall_forall in FE. specialize (FE q Hq). lia.
+  - rewrite Los. eapply loops_ext_weaken; [|exact LE']. lia.
+  - lia.
+Qed.
+
+Lemma fun_enter_same : forall name st,
+  c_code (fst (fun_enter name st)) = c_code st /\ c_last (fst (fun_enter name st)) = c_last st /\
+  c_loops (fst (fun_enter name st)) = c_loops st.
+Proof.
+  intros name st. unfold fun_enter. destruct (is_nil name); [auto|].
+  destruct (define (c_symbols st) name) as [t s]. cbn. auto.
+Qed.
+
+Lemma fun_finish_facts : forall P st5, binv P st5 -> 1 <= code_len st5 ->
+  binv P (fun_finish st5) /\ code_len st5 <= code_len (fun_finish st5) /\
+  c_loops (fun_finish st5) = c_loops st5 /\
+  (forall i, 0 <= i < code_len st5 - 1 -> byte_at (fun_finish st5) i = byte_at st5 i).
+Proof.
+  intros P st5 Hb L. unfold fun_finish. destruct (last_instruction_is OPop st5) eqn:EP.
+  - apply last_is_pop in EP. pose proof (remove_last_binv P st5 Hb EP L) as Hr.
+    pose proof (remove_last_len st5 L) as Lr.
+    pose proof (app_emit_opcode OReturnValue (remove_last_instruction st5)) as A.
+    pose proof (app_of_len _ _ _ A) as La. rewrite zlength_cons, zlength_nil in La.
+    split; [|split; [lia|split; [reflexivity|]]].
+    + eapply binv_grow; [exact Hr|lia|]. intros i Hi. exact (app_of_old _ _ _ i A Hi).
+    + intros i Hi. rewrite (app_of_old _ _ _ i A) by lia. apply remove_last_byte. lia.
+  - destruct (last_instruction_is OReturnValue st5).
+    + split; [exact Hb|]. split; [lia|]. split; reflexivity.
+    + pose proof (app_emit_opcode OReturn st5) as A.
+      pose proof (app_of_len _ _ _ A) as La. rewrite zlength_cons, zlength_nil in La.
+      split; [|split; [lia|split; [reflexivity|]]].
+      * eapply binv_grow; [exact Hb|lia|]. intros i Hi. exact (app_of_old _ _ _ i A Hi).
+      * intros i Hi. apply (app_of_old _ _ _ i A). lia.
+Qed.
+
+Lemma fun_tail_good : forall pos sym st7, code_inv st7 -> good 3 st7 (fun_tail pos sym st7).
+Proof.
+  intros pos sym st7 I7. unfold fun_tail, leave_context. cbv beta iota zeta.
+  apply good_operand. intros ip. apply good_operand. intros nl.
+  set (st8 := set_symbols st7 _).
+  pose proof (add_constant_same (KFun ip nl) st8) as (E1 & E2 & E3).
+  pose proof (add_constant_no_panic (KFun ip nl) st8) as NP.
+  destruct (add_constant (KFun ip nl) st8) as [st9 r]. cbn [fst snd] in *.
+  destruct r as [idx| | |]; cbn [bind no_panic] in *; try exact I; try contradiction.
+  apply (good_from_same 3 st7 st9); [exact E1|exact E3|].
+  assert (I9 : code_inv st9) by exact (code_inv_same st7 st9 I7 E1 E2 E3).
+  destruct (good_emit3 3 OConst idx st9 ltac:(lia) I9) as (I10 & S10 & L10).
+  set (st10 := emit_u16 idx (emit_opcode OConst st9)) in *.
+  destruct sym as [s|]; [|exact (conj I10 (conj S10 L10))].
+  eapply good_after; [exact S10| |lia].
+  eapply (good_bind 3 0 3); [apply good_emit_sym; [lia|exact I10]| |lia].
+  intros st11 I11 _ _. apply good_emit3; [lia|exact I11].
+Qed.
+
+Lemma function_good : forall name params body st,
+  (forall s, code_inv s -> good 1 s (block_statement body s)) ->
+  code_inv st -> good 1 st (compile_expression (EFunction name params body) st).
+Proof.
+  intros name params body st Hb Hinv. rewrite ce_function. pose proof (code_len_nonneg st) as N0.
+  destruct (fun_enter_same name st) as (E1 & E1' & E1'').
+  destruct (fun_enter name st) as [st1 sym]. cbn [fst] in E1, E1', E1''. cbv beta iota zeta.
+  assert (I1 : code_inv st1) by exact (code_inv_same st st1 Hinv E1 E1' E1'').
+  assert (L1 : code_len st1 = code_len st) by (unfold code_len; rewrite E1; reflexivity).
+  destruct (jump_ph_facts OJump st1 I1) as (I2 & S2 & L2 & Lo2 & B2).
+  set (st2 := jump_ph OJump st1) in *.
+  set (st3 := set_symbols st2 _).
+  set (s0 := set_loops st3 []).
+  assert (I0 : code_inv s0).
+  { unfold code_inv. change (c_loops s0) with (@nil loopctx). split.
+    - intros p Hp. destruct (brk_nil _ Hp).
+    - intros p q Hp. destruct (brk_nil _ Hp).
+    - intros _ p Hp. destruct (brk_nil _ Hp). }
+  pose proof (Hb s0 I0) as G4.
+  destruct (block_statement body s0) as [st4| | |]; cbn [bind]; [|exact I|destruct G4..].
+  destruct G4 as (I4 & S4 & L4). change (code_len s0) with (code_len st2) in L4.
+  set (st5 := set_loops st4 (c_loops st3)).
+  assert (L5 : code_len st5 = code_len st4) by reflexivity.
+  assert (Bpre : forall i, 0 <= i < code_len st + 3 -> byte_at st5 i = byte_at st2 i).
+  { intros i Hi. change (byte_at st5 i) with (byte_at st4 i).
+    rewrite (sp_pre _ _ _ S4) by (change (code_len s0) with (code_len st2); lia). reflexivity. }
+  assert (Bst : forall i, 0 <= i < code_len st -> byte_at st5 i = byte_at st i).
+  { intros i Hi. rewrite Bpre by lia. rewrite (sp_pre _ _ _ S2) by lia.
+    unfold byte_at. rewrite E1. reflexivity. }
+  assert (I5 : binv (brk (c_loops st)) st5).
+  { eapply binv_grow; [exact Hinv|lia|exact Bst]. }
+  assert (N5 : 1 <= code_len st5) by lia.
+  destruct (fun_finish_facts _ st5 I5 N5) as (I6 & L6 & Lo6 & B6).
+  set (st6 := fun_finish st5) in *.
+  apply good_operand. intros tg.
+  assert (B6' : byte_at st6 (code_len st1) = Some (byte_of_opcode OJump)).
+  { rewrite B6 by lia. rewrite Bpre by lia. exact B2. }
+  destruct (patch_spec (code_len st1) tg st6 _ (code_len_nonneg st1) B6' jump_byte_jump) as (st7 & E7 & P7).
+  rewrite E7. cbn [bind]. pose proof (pa_len _ _ _ P7) as L7.
+  assert (Lo6' : c_loops st6 = c_loops st).
+  { rewrite Lo6. change (c_loops st5) with (c_loops st2). rewrite Lo2. exact E1''. }
+  assert (I7 : code_inv st7).
+  { unfold code_inv. rewrite (pa_loops _ _ _ P7), Lo6'. eapply patched_binv; [exact P7|exact I6|].
+    intros p Hp. destruct (bi_at _ _ Hinv p Hp) as (_ & X & _). lia. }
+  assert (S7 : pstep (code_len st) st st7).
+  { split.
+    - lia.
+    - intros i Hi. rewrite (pa_bytes _ _ _ P7) by lia. rewrite B6 by lia. apply Bst. exact Hi.
+    - rewrite (pa_loops _ _ _ P7), Lo6'. apply loops_ext_refl. }
+  eapply good_after; [exact S7| |lia].
+  eapply good_mono; [|apply fun_tail_good; exact I7]. lia.
+Qed.
+
+(** * 13. Blocks *)
+
+Lemma block_statement_good : forall b st,
+  (forall s, code_inv s -> good (if is_nil b then 0 else 1) s (compile_statements b s)) ->
+  code_inv st -> good 1 st (block_statement b st).
+Proof.
+  intros b st H Hinv. unfold block_statement. destruct (is_nil b).
+  - apply good_emit_opcode; [lia|exact Hinv].
+  - apply (good_from_same 1 st (set_symbols st (enter_scope (c_symbols st)))); [reflexivity|reflexivity|].
+    eapply (good_bind 1 0 1); [apply H; eapply code_inv_same; [exact Hinv|reflexivity..]| |lia].
+    intros st1 I1 _ _. apply good_same; [exact I1|reflexivity..].
+Qed.
+
+Lemma block_value_good : forall b st,
+  (forall s, code_inv s -> good 1 s (block_statement b s)) ->
+  code_inv st -> good 0 st (block_value b st).
+Proof.
+  intros b st H Hinv. unfold block_value. pose proof (H st Hinv) as G.
+  destruct (block_statement b st) as [st1| | |]; cbn [bind]; [|exact I|destruct G..].
+  destruct G as (I1 & S1 & L1). destruct (is_nil b).
+  - cbn [good]. split; [exact I1|]. split; [exact S1|lia].
+  - destruct (last_instruction_is OPop st1) eqn:EP.
+    + apply good_remove_last; [exact I1|exact S1|exact L1|apply last_is_pop; exact EP].
+    + eapply good_after; [exact S1| |lia]. apply good_emit_opcode; [lia|exact I1].
+Qed.
+
+(** * 14. stop / volgende *)
+
+Lemma break_good : forall st, code_inv st -> good 1 st (compile_statement SBreak st).
+Proof.
+  intros st Hinv. rewrite cs_break. cbv zeta. pose proof (code_len_nonneg st) as N0.
+  destruct (rev (c_loops st)) as [|ctx rest] eqn:R; [exact I|].
+  assert (EL : c_loops st = rev rest ++ [ctx]).
+  { rewrite <- (rev_involutive (c_loops st)), R. reflexivity. }
+  cbn [rev].
+  set (pos := code_len (emit_opcode ONull st)).
+  set (c' := mkLoop (l_start ctx) (l_breaks ctx ++ [pos])).
+  pose proof (app_emit_opcode ONull st) as A1.
+  destruct (app_facts _ _ _ A1 ltac:(zl) Hinv) as (I1 & S1 & L1 & Lo1).
+  rewrite zlength_cons, zlength_nil in L1. fold pos in L1.
+  destruct (jump_ph_facts OJump _ I1) as (I2 & S2 & L2 & Lo2 & B2). fold pos in L2, B2.
+  set (st2 := jump_ph OJump (emit_opcode ONull st)) in *.
+  assert (Lo : c_loops st2 = c_loops st) by (rewrite Lo2; exact Lo1).
+  cbn [good]. split; [|split; [split|]].
+  - unfold code_inv. change (c_loops (set_loops st2 (rev rest ++ [c']))) with (rev rest ++ [c']).
+    apply (binv_same _ st2); [|reflexivity|reflexivity].
+    unfold code_inv in I2. rewrite Lo in I2.
+    assert (Hadd : binv (fun p => brk (c_loops st) p \/ p = pos) st2).
+    { apply binv_add; [exact I2| |lia|lia|exact B2|].
+      - intros p Hp. destruct (bi_at _ _ Hinv p Hp) as (_ & X & _). lia.
+      - intros Hl. discriminate Hl. }
+    eapply binv_weaken; [|exact Hadd]. intros p Hp. apply brk_snoc in Hp. rewrite EL.
+    destruct Hp as [Hp|Hp].
+    + left. apply brk_snoc. left. exact Hp.
+    + unfold c' in Hp. cbn [l_breaks] in Hp. apply in_app_or in Hp. destruct Hp as [Hp|[Hp|[]]].
+      * left. apply brk_snoc. right. exact Hp.
+      * right. symmetry. exact Hp.
+  - change (code_len (set_loops st2 (rev rest ++ [c']))) with (code_len st2). lia.
+  - intros i Hi. change (byte_at (set_loops st2 (rev rest ++ [c'])) i) with (byte_at st2 i).
+    rewrite (sp_pre _ _ _ S2) by lia. apply (sp_pre _ _ _ S1). exact Hi.
+  - change (c_loops (set_loops st2 (rev rest ++ [c']))) with (rev rest ++ [c']). rewrite EL.
+    apply Forall2_app; [apply loops_ext_refl|]. constructor; [|constructor].
+    split; [reflexivity|]. exists [pos]. split; [reflexivity|]. constructor; [lia|constructor].
+  - change (code_len (set_loops st2 (rev rest ++ [c']))) with (code_len st2). lia.
+Qed.
+
+Lemma continue_good : forall st, code_inv st -> good 1 st (compile_statement SContinue st).
+Proof.
+  intros st Hinv. rewrite cs_continue. destruct (rev (c_loops st)) as [|ctx rest]; [exact I|].
+  apply good_operand. intros pos.
+  eapply good_app; [eapply app_of_trans; [apply app_emit_opcode|apply app_emit3]|zl|zl|exact Hinv].
+Qed.
+
+(** * 15. Infix expressions *)
+
+Lemma generic_good : forall l o r st,
+  (forall s, code_inv s -> good 1 s (compile_expression l s)) ->
+  (forall s, code_inv s -> good 1 s (compile_expression r s)) ->
+  op_has_opcode o = true -> code_inv st -> good 1 st (generic_infix l o r st).
+Proof.
+  intros l o r st Hl Hr Ho Hinv. unfold generic_infix.
+  eapply (good_bind 1 0 1); [apply Hl; exact Hinv| |lia]. intros st1 I1 _ _.
+  eapply (good_bind 1 0 0); [apply Hr; exact I1| |lia]. intros st2 I2 _ _.
+  unfold op_has_opcode in Ho. destruct (assoc operator_eqb o compile_operator_table); [|discriminate Ho].
+  apply good_emit_opcode; [lia|exact I2].
+Qed.
+
+Lemma ccvi_good : forall name v op st, code_inv st ->
+  good (if snd (compile_const_var_infix name v op st) then 1 else 0) st
+       (Ok (fst (compile_const_var_infix name v op st))).
+Proof.
+  intros name v op st Hinv. unfold compile_const_var_infix.
+  pose proof (add_constant_same (KInt v) st) as (E1 & E2 & E3).
+  destruct (add_constant (KInt v) st) as [st1 r]. cbn [fst snd] in E1, E2, E3.
+  assert (G0 : good 0 st (Ok st1)) by (apply good_same; assumption).
+  destruct r as [idx| | |]; cbn [fst snd]; try exact G0.
+  destruct (resolve (c_symbols st1) name) as [s|]; cbn [fst snd]; [|exact G0].
+  destruct (s_scope s); cbn [fst snd]; [|exact G0].
+  destruct (assoc operator_eqb op fused_table) as [opc|]; cbn [fst snd]; [|exact G0].
+  destruct (operand 16 (Z.of_nat (s_index s))) as [i| | |]; cbn [fst snd].
+  - eapply good_app;
+      [apply (app_of_same st st1);
+        [exact E1|exact E3|eapply app_of_trans; [apply app_emit3|apply app_emit_u16]]
+      |zl|zl|exact Hinv].
+  - eapply good_app;
+      [apply (app_of_same st st1); [exact E1|exact E3|apply app_emit_opcode]|zl|zl|exact Hinv].
+  - eapply good_app;
+      [apply (app_of_same st st1); [exact E1|exact E3|apply app_emit_opcode]|zl|zl|exact Hinv].
+  - eapply good_app;
+      [apply (app_of_same st st1); [exact E1|exact E3|apply app_emit_opcode]|zl|zl|exact Hinv].
+Qed.
+
+(** * 16. The main induction *)
+
+Definition Ge (e : expr) : Prop :=
+  ops_ok_e e = true -> forall st, code_inv st -> good 1 st (compile_expression e st).
+Definition Gs (s : stmt) : Prop :=
+  ops_ok_s s = true -> forall st, code_inv st -> good 1 st (compile_statement s st).
+(* compile_expression looks one level into the target of an assignment *)
+Definition sub_ok (e : expr) : Prop :=
+  match e with EIndex a b => Ge a /\ Ge b | _ => True end.
+
+Lemma good_refl : forall st, code_inv st -> good 0 st (Ok st).
+Proof. intros st H. cbn [good]. split; [exact H|]. split; [apply pstep_refl|lia]. Qed.
+
+Lemma stmts_good : forall b, Forall Gs b -> forallb ops_ok_s b = true ->
+  forall st, code_inv st -> good (if is_nil b then 0 else 1) st (compile_statements b st).
+Proof.
+  intros b H. induction H as [|s b Hs H IH]; intros Hop st Hinv.
+  - apply good_refl. exact Hinv.
+  - cbn [forallb] in Hop. apply andb_true_iff in Hop. destruct Hop as [Hop1 Hop2].
+    cbn [is_nil compile_statements].
+    eapply (good_bind 1 0 1); [exact (Hs Hop1 st Hinv)| |lia]. intros st1 I1 _ _.
+    eapply good_mono; [|exact (IH Hop2 st1 I1)]. destruct (is_nil b); lia.
+Qed.
+
+Lemma exprs_good : forall l, Forall (fun e => Ge e /\ sub_ok e) l -> forallb ops_ok_e l = true ->
+  forall st, code_inv st -> good 0 st (compile_exprs l st).
+Proof.
+  intros l H. induction H as [|e l [He _] H IH]; intros Hop st Hinv.
+  - apply good_refl. exact Hinv.
+  - cbn [forallb] in Hop. apply andb_true_iff in Hop. destruct Hop as [Hop1 Hop2].
+    cbn [compile_exprs].
+    eapply (good_bind 1 0 0); [exact (He Hop1 st Hinv)| |lia]. intros st1 I1 _ _.
+    exact (IH Hop2 st1 I1).
+Qed.
+
+Lemma block_good : forall b, Forall Gs b -> forallb ops_ok_s b = true ->
+  forall st, code_inv st -> good 1 st (block_statement b st).
+Proof. intros b H Hop st Hinv. apply block_statement_good; [|exact Hinv]. apply stmts_good; assumption. Qed.
+
+Lemma bvalue_good : forall b, Forall Gs b -> forallb ops_ok_s b = true ->
+  forall st, code_inv st -> good 0 st (block_value b st).
+Proof. intros b H Hop st Hinv. apply block_value_good; [|exact Hinv]. apply block_good; assumption. Qed.
+
+Ltac split_ops H :=
+  repeat match type of H with
+         | _ && _ = true => let H2 := fresh H in apply andb_true_iff in H; destruct H as [H H2]
+         end.
+
+Theorem compile_good_all : (forall e, Ge e /\ sub_ok e) /\ (forall s, Gs s).
+Proof.
+  apply expr_stmt_ind.
+  - (* EInfix *)
+    intros l o r [Gl _] [Gr _]. split; [|exact I]. intros Hop st Hinv. cbn [ops_ok_e] in Hop.
+    apply andb_true_iff in Hop. destruct Hop as [Hop Hr]. apply andb_true_iff in Hop. destruct Hop as [Ho Hl].
+    rewrite ce_infix.
+    destruct (fused_candidate l r o) as [[[name v] op']|];
+      [|apply generic_good; [exact (Gl Hl)|exact (Gr Hr)|exact Ho|exact Hinv]].
+    pose proof (ccvi_good name v op' st Hinv) as Gc.
+    destruct (compile_const_var_infix name v op' st) as [st1 done]. cbn [fst snd] in Gc.
+    destruct done; [exact Gc|]. destruct Gc as (I1 & S1 & _).
+    eapply good_after; [exact S1| |lia].
+    apply generic_good; [exact (Gl Hl)|exact (Gr Hr)|exact Ho|exact I1].
+  - (* EPrefix *)
+    intros o r [Gr _]. split; [|exact I]. intros Hop st Hinv. cbn [ops_ok_e] in Hop. rewrite ce_prefix.
+    eapply (good_bind 1 0 1); [exact (Gr Hop st Hinv)| |lia]. intros st1 I1 _ _.
+    destruct o; try exact I; apply good_emit_opcode; (lia || exact I1).
+  - (* EInt *)
+    intros z. split; [|exact I]. intros _ st Hinv. apply (good_emit_const 1 (KInt z) st); [lia|exact Hinv].
+  - (* EFloat *)
+    intros x. split; [|exact I]. intros _ st Hinv.
+    change (compile_expression (EFloat x) st) with (emit_const (KFloat x) (count_alloc st)).
+    apply (good_from_same 1 st (count_alloc st)); [reflexivity|reflexivity|].
+    apply good_emit_const; [lia|]. eapply code_inv_same; [exact Hinv|reflexivity..].
+  - (* EBool *)
+    intros b. split; [|exact I]. intros _ st Hinv.
+    change (compile_expression (EBool b) st) with (Ok (emit_opcode (if b then OTrue else OFalse) st)).
+    apply good_emit_opcode; [lia|exact Hinv].
+  - (* EIf *)
+    intros c t alt [Gc _] Ht Ha. split; [|exact I]. intros Hop st Hinv. cbn [ops_ok_e] in Hop.
+    apply andb_true_iff in Hop. destruct Hop as [Hop Hoa]. apply andb_true_iff in Hop. destruct Hop as [Hoc Hot].
+    apply if_good; [exact (Gc Hoc)| | |exact Hinv].
+    + intros s Hs. apply bvalue_good; assumption.
+    + intros s Hs. destruct alt as [a|].
+      * apply bvalue_good; assumption.
+      * apply good_emit_opcode; [lia|exact Hs].
+  - (* EIdent *)
+    intros x. split; [|exact I]. intros _ st Hinv.
+    change (compile_expression (EIdent x) st) with
+      (match resolve (c_symbols st) x with
+       | Some s => emit_sym (scoped s OGetGlobal OGetLocal) s st
+       | None => Err EReferenceError
+       end).
+    destruct (resolve (c_symbols st) x) as [s|]; [|exact I]. apply good_emit_sym; [lia|exact Hinv].
+  - (* EFunction *)
+    intros n ps body Hb. split; [|exact I]. intros Hop st Hinv. cbn [ops_ok_e] in Hop.
+    apply function_good; [|exact Hinv]. intros s Hs. apply block_good; assumption.
+  - (* ECall *)
+    intros h args [Gh _] Hargs. split; [|exact I]. intros Hop st Hinv. cbn [ops_ok_e] in Hop.
+    apply andb_true_iff in Hop. destruct Hop as [Hoh Hoa]. rewrite ce_call.
+    eapply (good_bind 0 1 1); [exact (exprs_good args Hargs Hoa st Hinv)| |lia]. intros st1 I1 _ _.
+    destruct (match h with EIdent name => assoc_text name builtin_names | _ => None end) as [b|].
+    + apply good_operand. intros n.
+      eapply good_app;
+        [eapply app_of_trans; [eapply app_of_trans; [apply app_emit_opcode|apply app_emit_u8]|apply app_emit_u8]
+        |zl|zl|exact I1].
+    + eapply (good_bind 1 0 1); [exact (Gh Hoh st1 I1)| |lia]. intros st2 I2 _ _.
+      apply good_operand. intros n.
+      eapply good_app; [eapply app_of_trans; [apply app_emit_opcode|apply app_emit_u8]|zl|zl|exact I2].
+  - (* EAssign *)
+    intros l r [Gl Sl] [Gr _]. split; [|exact I]. intros Hop st Hinv. cbn [ops_ok_e] in Hop.
+    apply andb_true_iff in Hop. destruct Hop as [Hol Hor].
+    destruct l; try exact I.
+    + (* identifier *)
+      rewrite ce_assign_ident. destruct (resolve (c_symbols st) s) as [sy|]; [|exact I].
+      eapply (good_bind 1 0 1); [exact (Gr Hor st Hinv)| |lia]. intros st1 I1 _ _.
+      eapply (good_bind 0 0 0); [apply good_emit_sym; [lia|exact I1]| |lia]. intros st2 I2 _ _.
+      apply good_emit_sym; [lia|exact I2].
+    + (* index *)
+      destruct Sl as [Ga Gi]. cbn [ops_ok_e] in Hol. apply andb_true_iff in Hol. destruct Hol as [Hoa Hoi].
+      rewrite ce_assign_index.
+      eapply (good_bind 1 0 1); [exact (Ga Hoa st Hinv)| |lia]. intros st1 I1 _ _.
+      eapply (good_bind 0 0 0); [eapply good_mono; [|exact (Gi Hoi st1 I1)]; lia| |lia]. intros st2 I2 _ _.
+      eapply (good_bind 0 0 0); [eapply good_mono; [|exact (Gr Hor st2 I2)]; lia| |lia]. intros st3 I3 _ _.
+      apply good_emit_opcode; [lia|exact I3].
+  - (* EString *)
+    intros s. split; [|exact I]. intros _ st Hinv.
+    change (compile_expression (EString s) st) with (emit_const (KStr s) (count_alloc st)).
+    apply (good_from_same 1 st (count_alloc st)); [reflexivity|reflexivity|].
+    apply good_emit_const; [lia|]. eapply code_inv_same; [exact Hinv|reflexivity..].
+  - (* EArray *)
+    intros vs Hvs. split; [|exact I]. intros Hop st Hinv. cbn [ops_ok_e] in Hop. rewrite ce_array.
+    eapply (good_bind 0 1 1); [exact (exprs_good vs Hvs Hop st Hinv)| |lia]. intros st1 I1 _ _.
+    apply good_operand. intros n. apply good_emit3; [lia|exact I1].
+  - (* EIndex *)
+    intros b i [Gb _] [Gi _]. split; [|split; assumption]. intros Hop st Hinv. cbn [ops_ok_e] in Hop.
+    apply andb_true_iff in Hop. destruct Hop as [Hob Hoi]. rewrite ce_index.
+    eapply (good_bind 1 0 1); [exact (Gb Hob st Hinv)| |lia]. intros st1 I1 _ _.
+    eapply (good_bind 0 0 0); [eapply good_mono; [|exact (Gi Hoi st1 I1)]; lia| |lia]. intros st2 I2 _ _.
+    apply good_emit_opcode; [lia|exact I2].
+  - (* EWhile *)
+    intros c b [Gc _] Hb. split; [|exact I]. intros Hop st Hinv. cbn [ops_ok_e] in Hop.
+    apply andb_true_iff in Hop. destruct Hop as [Hoc Hob].
+    apply while_good; [exact (Gc Hoc)| |exact Hinv]. intros s Hs. apply bvalue_good; assumption.
+  - (* SLet *)
+    intros n e [Ge' _] Hop st Hinv. cbn [ops_ok_s] in Hop. rewrite cs_let.
+    destruct (define (c_symbols st) n) as [t sym].
+    apply (good_from_same 1 st (set_symbols st t)); [reflexivity|reflexivity|].
+    eapply (good_bind 1 0 1); [apply (Ge' Hop); eapply code_inv_same; [exact Hinv|reflexivity..]| |lia].
+    intros st1 I1 _ _. apply good_emit_sym; [lia|exact I1].
+  - (* SReturn *)
+    intros e [Ge' _] Hop st Hinv. cbn [ops_ok_s] in Hop.
+    change (compile_statement (SReturn e) st) with
+      (if in_global_context (c_symbols st) then Err ESyntaxError
+       else do st1 <- compile_expression e st; Ok (emit_opcode OReturnValue st1)).
+    destruct (in_global_context (c_symbols st)); [exact I|].
+    eapply (good_bind 1 0 1); [exact (Ge' Hop st Hinv)| |lia]. intros st1 I1 _ _.
+    apply good_emit_opcode; [lia|exact I1].
+  - (* SExpr *)
+    intros e [Ge' _] Hop st Hinv. cbn [ops_ok_s] in Hop.
+    change (compile_statement (SExpr e) st) with
+      (do st1 <- compile_expression e st; Ok (emit_opcode OPop st1)).
+    eapply (good_bind 1 0 1); [exact (Ge' Hop st Hinv)| |lia]. intros st1 I1 _ _.
+    apply good_emit_opcode; [lia|exact I1].
+  - (* SBlock *)
+    intros b Hb Hop st Hinv. cbn [ops_ok_s] in Hop. rewrite cs_block.
+    pose proof (stmts_good b Hb Hop) as Hs. destruct (is_nil b).
+    + eapply good_app; [eapply app_of_trans; [apply app_emit_opcode|apply app_emit_opcode]|zl|zl|exact Hinv].
+    + apply (good_from_same 1 st (set_symbols st (enter_scope (c_symbols st)))); [reflexivity|reflexivity|].
+      eapply (good_bind 1 0 1); [apply Hs; eapply code_inv_same; [exact Hinv|reflexivity..]| |lia].
+      intros st1 I1 _ _. apply good_same; [exact I1|reflexivity..].
+  - (* SBreak *)
+    intros _ st Hinv. apply break_good. exact Hinv.
+  - (* SContinue *)
+    intros _ st Hinv. apply continue_good. exact Hinv.
+Qed.
+
+(** * 17. The theorems *)
+
+(* what `good` says about an Ok result, without the positional vocabulary: the old code is a
+   literal prefix of the new code, at least d bytes were emitted, the loop contexts are the
+   same contexts with possibly more recorded breaks (all inside the new part) *)
+Lemma prefix_of_nth : forall A (l l' : list A), (length l <= length l')%nat ->
+  (forall i, (i < length l)%nat -> nth_error l' i = nth_error l i) -> l' = l ++ skipn (length l) l'.
+Proof.
+  intros A l. induction l as [|a l IH]; intros l' Hlen H; [reflexivity|].
+  destruct l' as [|y l']; [cbn [length] in Hlen; lia|]. cbn [length skipn app]. f_equal.
+  - specialize (H 0%nat). cbn [length nth_error] in H. specialize (H ltac:(lia)). congruence.
+  - apply IH; [cbn [length] in Hlen; lia|]. intros i Hi. apply (H (S i)). cbn [length]. lia.
+Qed.
+
+Lemma pstep_prefix : forall st st', pstep (code_len st) st st' ->
+  c_code st' = c_code st ++ skipn (length (c_code st)) (c_code st').
+Proof.
+  intros st st' [A B _]. apply prefix_of_nth.
+  - unfold code_len, zlength in A. lia.
+  - intros i Hi. specialize (B (Z.of_nat i)). unfold byte_at, code_len, zlength in B.
+    rewrite Nat2Z.id in B. apply B. lia.
+Qed.
+
+Theorem good_ok : forall d st st', good d st (Ok st') ->
+  code_inv st' /\
+  (exists suf, c_code st' = c_code st ++ suf /\ d <= zlength suf) /\
+  loops_ext (code_len st) (c_loops st) (c_loops st') /\
+  map l_start (c_loops st') = map l_start (c_loops st).
+Proof.
+  intros d st st' (A & B & C). split; [exact A|]. split; [|split].
+  - exists (skipn (length (c_code st)) (c_code st')). pose proof (pstep_prefix _ _ B) as E.
+    split; [exact E|]. unfold code_len, zlength in *. rewrite E, app_length in C. lia.
+  - exact (sp_loops _ _ _ B).
+  - exact (loops_ext_starts _ _ _ (sp_loops _ _ _ B)).
+Qed.
+
+Lemma good_no_panic : forall d st o, good d st o -> no_panic o.
+Proof. intros d st [s| | |] H; cbn [good no_panic] in *; auto. Qed.
+
+(* the invariant-preservation statements *)
+Theorem compile_expression_inv : forall e st, ops_ok_e e = true -> code_inv st ->
+  good 1 st (compile_expression e st).
+Proof. intros e st H. exact (proj1 (proj1 compile_good_all e) H st). Qed.
+
+Theorem compile_statement_inv : forall s st, ops_ok_s s = true -> code_inv st ->
+  good 1 st (compile_statement s st).
+Proof. intros s st H. exact (proj2 compile_good_all s H st). Qed.
+
+Theorem compile_statements_inv : forall b st, forallb ops_ok_s b = true -> code_inv st ->
+  good 0 st (compile_statements b st).
+Proof.
+  intros b st H Hinv. eapply good_mono; [|apply stmts_good; [|exact H|exact Hinv]].
+  - destruct (is_nil b); lia.
+  - apply Forall_forall. intros s _. exact (proj2 compile_good_all s).
+Qed.
+
+(* spelled out: on success the old code is a literal prefix of the new one (jumps are only patched
+   inside the part the call emitted), something was emitted, the loop contexts are those of before *)
+Corollary compile_expression_ok : forall e st st', ops_ok_e e = true -> code_inv st ->
+  compile_expression e st = Ok st' ->
+  code_inv st' /\ (exists suf, c_code st' = c_code st ++ suf /\ 1 <= zlength suf) /\
+  loops_ext (code_len st) (c_loops st) (c_loops st') /\
+  map l_start (c_loops st') = map l_start (c_loops st).
+Proof.
+  intros e st st' H Hinv E. apply good_ok. rewrite <- E. apply compile_expression_inv; assumption.
+Qed.
+
+Corollary compile_statement_ok : forall s st st', ops_ok_s s = true -> code_inv st ->
+  compile_statement s st = Ok st' ->
+  code_inv st' /\ (exists suf, c_code st' = c_code st ++ suf /\ 1 <= zlength suf) /\
+  loops_ext (code_len st) (c_loops st) (c_loops st') /\
+  map l_start (c_loops st') = map l_start (c_loops st).
+Proof.
+  intros s st st' H Hinv E. apply good_ok. rewrite <- E. apply compile_statement_inv; assumption.
+Qed.
+
+(* the parser's trees *)
+Lemma wf_tree_ops_ok : forall b, wf_tree b = true -> forallb ops_ok_s b = true.
+Proof.
+  intros b H. unfold wf_tree, wf_tree_gen in H. eapply forallb_imp; [|exact H].
+  apply Forall_forall. intros s _. exact (proj2 (wf_ops_ok (fun _ => true)) s).
+Qed.
+
+Lemma code_inv_no_loops : forall st, c_loops st = [] -> code_inv st.
+Proof.
+  intros st E. unfold code_inv. rewrite E. split.
+  - intros p Hp. destruct (brk_nil _ Hp).
+  - intros p q Hp. destruct (brk_nil _ Hp).
+  - intros _ p Hp. destruct (brk_nil _ Hp).
+Qed.
+
+Lemma code_inv_new : code_inv compiler_new.
+Proof. apply code_inv_no_loops. reflexivity. Qed.
+
+(* 1. the compiler never reaches a panic site on a tree of the parser *)
+Theorem compile_statements_no_panic : forall b st, wf_tree b = true -> code_inv st ->
+  no_panic (compile_statements b st).
+Proof.
+  intros b st H Hinv. eapply good_no_panic. apply compile_statements_inv; [|exact Hinv].
+  apply wf_tree_ops_ok. exact H.
+Qed.
+
+Theorem compile_no_fault : forall b st, wf_tree b = true -> code_inv st ->
+  forall f, compile_statements b st <> Fault f.
+Proof.
+  intros b st H Hinv f E. pose proof (compile_statements_no_panic b st H Hinv) as N.
+  rewrite E in N. exact N.
+Qed.
+
+Theorem compile_ast_no_panic : forall b st, wf_tree b = true -> code_inv st ->
+  no_panic (snd (compile_ast b st)).
+Proof.
+  intros b st H Hinv. pose proof (compile_statements_no_panic b st H Hinv) as N. unfold compile_ast.
+  destruct (compile_statements b st); cbn [snd no_panic] in *; exact N.
+Qed.
+
+Theorem compile_ast_no_fault : forall b st, wf_tree b = true -> code_inv st ->
+  forall f, snd (compile_ast b st) <> Fault f.
+Proof.
+  intros b st H Hinv f E. pose proof (compile_ast_no_panic b st H Hinv) as N. rewrite E in N. exact N.
+Qed.
+
+(* a session (compile_ast applied again and again to the retained compiler): a compiler with no
+   open loop context stays one, whatever the outcome, so the invariant holds at every round *)
+Theorem compile_ast_session : forall b st, wf_tree b = true -> c_loops st = [] ->
+  c_loops (fst (compile_ast b st)) = [] /\ no_panic (snd (compile_ast b st)).
+Proof.
+  intros b st H E. pose proof (code_inv_no_loops st E) as Hinv.
+  split; [|exact (compile_ast_no_panic b st H Hinv)].
+  pose proof (compile_statements_inv b st (wf_tree_ops_ok b H) Hinv) as G. unfold compile_ast.
+  destruct (compile_statements b st) as [st1| | |]; cbn [fst c_loops] in *; try reflexivity; try contradiction.
+  destruct G as (_ & S & _). pose proof (loops_ext_length _ _ _ (sp_loops _ _ _ S)) as L.
+  rewrite E in L. cbn [length] in L. cbn [emit_opcode c_loops].
+  destruct (c_loops st1); [reflexivity|discriminate L].
+Qed.
+
+(* 2. compile answers with bytecode or a documented error kind (OutOfFuel is impossible by
+   construction: the compiler is structurally recursive) *)
+Theorem compile_result_kinds : forall b, wf_tree b = true ->
+  (exists bc, compile b = Ok bc) \/ (exists k, compile b = Err k).
+Proof.
+  intros b H. pose proof (compile_ast_no_panic b compiler_new H code_inv_new) as N. unfold compile.
+  destruct (snd (compile_ast b compiler_new)) as [bc|k| |]; cbn [no_panic] in N;
+    [left; exists bc; reflexivity|right; exists k; reflexivity|contradiction..].
+Qed.
+
+Theorem compile_no_fault_new : forall b, wf_tree b = true -> forall f, compile b <> Fault f.
+Proof.
+  intros b H f E. destruct (compile_result_kinds b H) as [[bc E']|[k E']]; rewrite E in E'; discriminate E'.
+Qed.
+
+(** * 18. The whole front end *)
+
+(* the shape of the float tokens the lexer produces: digits '.' digits *)
+Definition float_shape (s : text) : Prop :=
+  exists ds fs, s = ds ++ 46%N :: fs /\ ds <> [] /\
+                forallb is_digit ds = true /\ forallb is_digit fs = true.
+
+Lemma lexer_floats_shaped : forall u src s, In (TFloatLit s) (tokens u src) -> float_shape s.
+Proof.
+  intros u src s Hin. pose proof (LexerProofs.lex_tokens_printable u src) as F.
+  rewrite Forall_forall in F. destruct (F _ Hin) as [E|P]; [discriminate E|exact P].
+Qed.
+
+(* 3. every text gets bytecode or a documented error kind from lexer + parser + compiler,
+   provided str::parse::<f64> accepts what the lexer calls a float literal *)
+Theorem front_end_result_kinds : forall u orc src,
+  (forall s, float_shape s -> parse_float orc s <> None) ->
+  (exists bc, front u orc src = Ok bc) \/ (exists k, front u orc src = Err k).
+Proof.
+  intros u orc src Hpf. unfold front, parse.
+  assert (Hts : forall s, In (TFloatLit s) (tokens u src) -> parse_float orc s <> None).
+  { intros s Hin. apply Hpf. exact (lexer_floats_shaped u src s Hin). }
+  destruct (ParserTermination.parse_total (parse_float orc) (tokens u src) Hts) as [[b E]|[k E]];
+    rewrite E; cbn [bind].
+  - unfold parse_tokens in E. pose proof (PrinterProofs.wf_complete (parse_float orc) _ _ b E) as W.
+    exact (compile_result_kinds b W).
+  - right. exists k. reflexivity.
+Qed.
+
+Theorem front_end_no_panic : forall u orc src,
+  (forall s, float_shape s -> parse_float orc s <> None) ->
+  match front u orc src with Ok _ | Err _ => True | _ => False end.
+Proof.
+  intros u orc src Hpf. destruct (front_end_result_kinds u orc src Hpf) as [[bc ->]|[k ->]]; exact I.
+Qed.
+
+(* the same for lib.rs::eval: whatever is rejected before anything runs is rejected with an error kind *)
+Theorem eval_front_no_panic : forall u orc src budget r,
+  (forall s, float_shape s -> parse_float orc s <> None) ->
+  eval u orc src budget = FrontError r -> exists k, r = Err k.
+Proof.
+  intros u orc src budget r Hpf. unfold eval, parse.
+  assert (Hts : forall s, In (TFloatLit s) (tokens u src) -> parse_float orc s <> None).
+  { intros s Hin. apply Hpf. exact (lexer_floats_shaped u src s Hin). }
+  destruct (ParserTermination.parse_total (parse_float orc) (tokens u src) Hts) as [[b E]|[k E]];
+    rewrite E.
+  - unfold parse_tokens in E. pose proof (PrinterProofs.wf_complete (parse_float orc) _ _ b E) as W.
+    pose proof (compile_ast_no_panic b compiler_new W code_inv_new) as N.
+    destruct (compile_ast b compiler_new) as [st [bc|k| |]]; cbn [snd no_panic] in N; try contradiction.
+    + discriminate.
+    + intros H. injection H as <-. exists k. reflexivity.
+  - intros H. injection H as <-. exists k. reflexivity.
+Qed.
+
+(** * 19. Examples (by computation): non-vacuity, and the hypotheses cannot be dropped *)
+
+Module CTExamples.
+  Definition u0 : unicode := mkUnicode (fun _ => false) (fun _ => false).
+  Definition orc_some : oracle := mkOracle (fun _ => []) (fun _ => Some 1.5%float) (fun x _ => x).
+  Definition orc_none : oracle := mkOracle (fun _ => []) (fun _ => None) (fun x _ => x).
+  Local Open Scope string_scope.
+
+  (* nested loops, stop / volgende, if / else-if / else, a function, a float literal *)
+  Definition prog : string :=
+    "stel i = 0; stel n = 0;
+     functie f(a, b) { als a < b { antwoord a; } anders als a == b { antwoord 0; } anders { antwoord b; } }
+     zolang i < 10 {
+       stel j = 0;
+       zolang ja {
+         j = j + 1;
+         als j > 5 { stop; }
+         als j % 2 == 0 { volgende; }
+         n = n + f(i, j) * 1.5;
+       }
+       i = i + 1;
+     }
+     n".
+
+  Example ex_hypothesis_satisfiable : forall s, float_shape s -> parse_float orc_some s <> None.
+  Proof. intros s _. discriminate. Qed.
+
+  Example ex_prog_compiles :
+    exists b bc, parse u0 (parse_float orc_some) (str_cps prog) = Ok b /\ wf_tree b = true /\
+                 forallb ops_ok_s b = true /\ compile b = Ok bc /\ (length (b_code bc) = 226)%nat /\
+                 front u0 orc_some (str_cps prog) = Ok bc.
+  Proof. do 2 eexists. repeat split; vm_compute; reflexivity. Qed.
+
+  (* documented errors, not panics: stop outside a loop, stop in a function inside a loop (the
+     function body starts with no loop context), an unknown name *)
+  Example ex_break_outside : front u0 orc_some (str_cps "stop;") = Err ESyntaxError.
+  Proof. vm_compute. reflexivity. Qed.
+  Example ex_break_in_function :
+    front u0 orc_some (str_cps "zolang ja { functie() { stop; } }") = Err ESyntaxError.
+  Proof. vm_compute. reflexivity. Qed.
+  Example ex_unknown_name : front u0 orc_some (str_cps "x = 1") = Err EReferenceError.
+  Proof. vm_compute. reflexivity. Qed.
+
+  (* the invariant with a pending break: inside a loop, `stop` records position 2 (after the ONull
+     of the loop and the ONull of the statement), where an OJump byte is *)
+  Example ex_pending_break :
+    exists st', compile_statement SBreak (while_enter compiler_new) = Ok st' /\
+                c_loops st' = [mkLoop 1 [2]] /\ byte_at st' 2 = Some (byte_of_opcode OJump).
+  Proof. eexists. repeat split; vm_compute; reflexivity. Qed.
+  Example ex_pending_break_inv :
+    forall st', compile_statement SBreak (while_enter compiler_new) = Ok st' -> code_inv st'.
+  Proof.
+    intros st' E. refine (proj1 (compile_statement_ok SBreak _ st' eq_refl _ E)).
+    apply while_enter_facts. exact code_inv_new.
+  Qed.
+
+  (* outside the parser's image the "unexpected operator" panic IS reachable: the hypothesis on the
+     tree cannot be dropped *)
+  Example ex_unexpected_operator :
+    compile [SExpr (EInfix (EInt 1) OpAssign (EInt 2))] = Fault FUnwrap.
+  Proof. vm_compute. reflexivity. Qed.
+
+  (* ... and with a float parser that rejects the lexer's float token the front end panics (in the
+     parser): the hypothesis of front_end_no_panic cannot be dropped either *)
+  Example ex_float_oracle_needed : front u0 orc_none (str_cps "1.5") = Fault FUnwrap.
+  Proof. vm_compute. reflexivity. Qed.
+End CTExamples.
+
+Print Assumptions expr_stmt_ind.
+Print Assumptions compile_good_all.
+Print Assumptions compile_expression_ok.
+Print Assumptions compile_no_fault.
+Print Assumptions compile_ast_session.
+Print Assumptions compile_result_kinds.
+Print Assumptions front_end_no_panic.
+Print Assumptions eval_front_no_panic.
